@@ -137,6 +137,10 @@ C20_COVERS = {"arr": (2, 2), "mem": (2, 2), "dict": (2, 2), "carr": (2, 2), "arr
 C20_QUICK_COVERS = ["arr", "mem", "dict", "carr"]
 C20_THOROUGH_COVERS = ["arr4", "mem3", "dict", "carr"]
 C20_SIM_CN, C20_SIM_NV, C20_SIM_DEPTH = 3, 5, 300
+# element / key representations (refinement parameter of the harness): Int / Int keys; 300-byte String / 300-character
+# String keys; nested [Int]; Int under short and under 300-character String keys; nested dictionaries {String: Int} with
+# short / 300-character keys inside and outside
+C20_REFS = ["int", "str", "nest", "sk", "lk", "dnS", "dnL"]
 
 
 def _c20_cover_behaviours(ctx, name, base_id):
@@ -161,7 +165,7 @@ def _c20_cover_behaviours(ctx, name, base_id):
 def check_C20(ctx):
     _java_opts()
     binary = ctx.build("vals")
-    nsim = 96 if ctx.quick else 720
+    nsim = 98 if ctx.quick else 350
     chunks = 4 if ctx.quick else 12
     per = (nsim + chunks - 1) // chunks
 
@@ -187,10 +191,10 @@ def check_C20(ctx):
         triples |= tr
         states += len(g.states)
         transitions += len(g.edges)
-    refs = ["int", "str", "nest"]
+    refs = C20_REFS
     if ctx.quick:
-        # every transition under both engines; the element representation rotates over the behaviours
-        cparts = {r: [b for i, b in enumerate(cover_behs) if refs[i % 3] == r] for r in refs}
+        # every transition under both engines; the element / key representation rotates over the behaviours
+        cparts = {r: [b for i, b in enumerate(cover_behs) if refs[i % len(refs)] == r] for r in refs}
     else:
         cparts = {r: cover_behs for r in refs}
     csum = []
@@ -217,12 +221,12 @@ def check_C20(ctx):
                 maxlen = max(maxlen, len(st["com"]["s"]), len(st["com"]["d"]))
     need = {"append", "appendAll", "insert", "remove", "removeFirst", "removeLast", "get", "set", "slice", "reverse", "concat",
             "filter", "map", "contains", "firstIndex", "toConst", "ctoVar", "dinsert", "dremove", "dget", "dset", "dkeys",
-            "dvalues", "dcontainsKey", "dforEachKey", "diterate", "iterate", "bulk", "dbulk", "commit", "abort"}
+            "dvalues", "dcontainsKey", "dforEachKey", "diterate", "iterate", "bulk", "dbulk", "amove", "dmove", "commit", "abort"}
     if need - set(ops):
         raise Infra("simulated histories never exercised: %s" % sorted(need - set(ops)))
     # refinements are distributed over the deep histories (every history under both engines)
     summ = []
-    parts = {r: [b for i, b in enumerate(sim_behs) if refs[i % 3] == r] for r in refs}
+    parts = {r: [b for i, b in enumerate(sim_behs) if refs[i % len(refs)] == r] for r in refs}
     if not ctx.quick:
         parts = {r: sim_behs for r in refs}      # thorough: every history under every refinement
     for r in refs:
@@ -246,8 +250,46 @@ def check_C20(ctx):
         "largest_container_in_simulation": maxlen,
         "operations_in_simulation": ops,
     }, assumptions=["host = repo's TestRuntimeInterface/TestLedger (harness/host), atree validation on",
-                    "model elements are small integers rendered as Int / 300-byte String / nested [Int] (refinement parameter of the harness)",
+                    "model elements are small integers rendered as Int / 300-byte String / nested [Int] / nested {String: Int}; dictionary keys as Int / short String / 300-character String (refinement parameters of the harness)",
                     "dictionary iteration order is not promised: keys/values/iteration are compared as sets / bags"])
+
+
+def c20_histories_with_health(ctx, nsim=None):
+    """For C23 (storage health): a modest set of Containers.tla behaviours -- the transition cover of the stored
+    dictionary and of the stored array, plus simulated deep histories -- replayed with VERIF_HEALTH=1: the runtime's
+    own atree validation is off and harness/health.Check runs on the committed ledger after EVERY committed
+    transaction.  Representations: short and 300-character string keys (flat dictionary, and dictionaries nested in
+    the array / dictionary / constant-sized array), 300-byte string elements.  Both engines, both access modes
+    (borrowed reference, load-modify-save), removals of containing elements, moves to a second account and back.
+    Returns (n_histories, n_commits_checked, failures) with failures = [{"sig":..., "msg":..., "replay":...}]."""
+    _java_opts()
+    binary = ctx.build("vals")
+    nsim = nsim or (28 if ctx.quick else 140)
+    jobs = [lambda: _c20_cover_behaviours(ctx, "dict", 100000), lambda: _c20_cover_behaviours(ctx, "arr", 200000),
+            lambda: ctx.tlc(C20_FILES, "Sim_Containers", "Sim_Containers.cfg", simulate=nsim, depth=C20_SIM_DEPTH + 1,
+                            tag="health-sim", timeout=2400, count=False, extra=["-aril", str(7000 * ctx.seed)])]
+    (r1, g1, dict_behs, _), (r2, g2, arr_behs, _), sim = _parallel(jobs, width=3)
+    sim_behs = [{"id": 900000 + i, "cn": C20_SIM_CN, "nv": C20_SIM_NV, "deep": True, "steps": h}
+                for i, h in enumerate(_unique_hists(sim, C20_SIM_DEPTH))]
+    if len(sim_behs) < nsim // 2:
+        raise Infra("simulation produced too few behaviours: %d of %d" % (len(sim_behs), nsim))
+    failures = []
+
+    def classify(f):
+        failures.append({"sig": f.get("sig") or {"kind": f["kind"]},
+                         "msg": "behaviour %d (%s, representation %s) step %d: %s" % (f["id"], f.get("engine"), f.get("ref"), f["step"], f["msg"]),
+                         "replay": {"behaviour": f.get("beh"), "source": f.get("src"), "engine": f.get("engine"), "refinement": f.get("ref")}})
+
+    key_refs = ["sk", "lk", "dnS", "dnL", "str"]
+    n_hist, n_commits = 0, 0
+    cover = dict_behs + arr_behs
+    for k, r in enumerate(key_refs):
+        part = [b for i, b in enumerate(cover) if i % len(key_refs) == k] if ctx.quick else cover
+        part = part + [b for i, b in enumerate(sim_behs) if ctx.quick is False or i % len(key_refs) == k]
+        sm, _ = _replay(ctx, binary, "c20", part, "health-" + r, classify, env={"VALS_REFS": r, "VERIF_HEALTH": "1"})
+        n_hist += sm["replays"]
+        n_commits += sm.get("health_checks", 0)
+    return n_hist, n_commits, failures
 
 
 # ------------------------------------------------------------------------------------------ C05
@@ -458,7 +500,7 @@ META = {
         "engine": "E2 replay",
     },
     "C20": {
-        "level_text": "Exhaustive TLC exploration of four bounded configurations of Containers.tla (stored array of <=4 elements over 2 values; in-memory array/dictionary with up to 3 calls per transaction; stored dictionary with <=3 keys; constant-sized array) with the model's invariants and action properties; every transition of those graphs, in both access modes (borrowed reference / load-modify-save), is replayed on the real runtime under interpreter and VM with elements represented as Int, 300-byte String and nested array, comparing every call's result, index-error aborts, and the full stored contents re-read by a fresh script after every transaction. Simulated deep histories (300 steps, bulk fills of 40-450 elements/keys crossing atree slab thresholds, aborts, reloads) are replayed the same way.",
+        "level_text": "Exhaustive TLC exploration of four bounded configurations of Containers.tla (stored array of <=4 elements over 2 values; in-memory array/dictionary with up to 3 calls per transaction; stored dictionary with <=3 keys; constant-sized array) with the model's invariants and action properties; every transition of those graphs, in both access modes (borrowed reference / load-modify-save), is replayed on the real runtime under interpreter and VM with elements represented as Int, 300-byte String, nested array and nested dictionary and keys as Int, short and 300-character strings, comparing every call's result, index-error aborts, and the full stored contents re-read by a fresh script after every transaction. Simulated deep histories (300 steps, bulk fills of 40-450 elements/keys crossing atree slab thresholds, aborts, reloads) are replayed the same way.",
         "level_note": "Trusted: TLC, the Go renderer of model steps to Cadence, the repo's test ledger as host. Bounded: lengths <= 700, element values are small integers under three representations; dictionary order is compared as a set because the property promises none.",
         "technique": "TLA+ spec (Containers.tla) model-checked with TLC; spec behaviours (transition cover + simulation) replayed into the real runtime and compared step by step",
         "design_ref": "DESIGN.md section 5 C20",
